@@ -278,7 +278,7 @@ def transplant(ovl_text, new_tokens, kind):
         # annotations that belong to the token BEFORE them (`in iter:`, `-> (r:`, `T )`, `x : Type`) follow that token when code
         # was inserted after it; everything else (contracts before `{`, proof blocks before a statement) stays in front of
         # the token that followed it
-        prefer_prev = st == "iter:" or re.match(r"^\(\s*\w+\s*:$", st) is not None or st.startswith(":") or st.startswith(")")
+        prefer_prev = re.match(r"^iter\w*:$", st) is not None or re.match(r"^\(\s*\w+\s*:$", st) is not None or st.startswith(":") or st.startswith(")")
         if prefer_prev and idx - 1 in fwd:
             j = fwd[idx - 1] + 1
         elif idx in fwd:
@@ -453,7 +453,7 @@ def lint_annotation(text):
     if t[0] == "#" and len(t) > 1 and t[1] == "[":
         j = _strip_balanced(t, 1)
         return None if j == len(t) else lint_annotation(" ".join(t[j:]))
-    if t == ["iter", ":"]:
+    if len(t) == 2 and t[1] == ":" and re.match(r"^iter\w*$", t[0]):
         return None
     if t[0] == ":" and "=" not in t and ";" not in t:
         return None  # type ascription
